@@ -67,7 +67,7 @@ SPEC_FUEL = 400
 #         the template, called on the spot: harness and Python specification only
 
 
-STATEFUL_SRC = {"N+": "{% increment n %}", "N-": "{% decrement n %}", "CY": "{% cycle 'a', 'b' %}", "NV": "{{ n }}"}
+STATEFUL_SRC = {"PL": "{{ forloop.parentloop.index }}", "N+": "{% increment n %}", "N-": "{% decrement n %}", "CY": "{% cycle 'a', 'b' %}", "NV": "{{ n }}"}
 WRAP_SRC = {
     "if": ("{% if true %}", "{% endif %}"),
     "for": ("{% for i in (1..1) %}", "{% endfor %}"),
@@ -668,6 +668,8 @@ def pyspec(tpls: dict[str, list], name: str, _depth: int = 0, suppress: bool = T
                         out.append("" if suppress and is_blank(it[2]) else part)
                 elif it[0] == "V":
                     out.append(str(ivar[-1]) if ivar else "")
+                elif it[0] == "PL":
+                    out.append(str(ivar[-2]) if len(ivar) > 1 else "")
                 elif it[0] == "N+":
                     out.append(str(st["n"] or 0))
                     st["n"] = (st["n"] or 0) + 1
@@ -994,6 +996,13 @@ def extra_cases() -> list[tuple[dict, tuple, int]]:
                     leaf = f"t{len(t) - 1}"
                     for entry in (("direct", leaf), ("wrap", [(False, leaf)]), ("wrap", [(True, leaf)])):
                         out.append((t, entry, 30))
+    # a loop in a block inside a loop of the base: forloop.parentloop is the page's loop (fix 0003)
+    for st1 in "ODS":
+        inner = [("F", 2, [("PL",), ("T", "."), ("V",), ("T", " ")])]
+        root = [("F", 2, [_b("a", inner)])]
+        over = [] if st1 == "O" else [_b("a", [("T", "o")] + ([("S",)] if st1 == "S" else inner))]
+        for entry in (("direct", "t1"), ("wrap", [(False, "t1")]), ("wrap", [(True, "t1")])):
+            out.append(({"t0": root, "t1": [("E", "t0")] + over}, entry, 30))
     # a loop inside a block that a super renders, and nested loops
     out.append(({"t0": [("T", "["), _b("a", [("F", 2, [("T", "r"), ("V",), _b("b", [("T", "b"), ("V",)])])]), ("T", "]")],
                  "t1": [("E", "t0"), _b("b", [("T", "B"), ("S",)]), _b("a", [("T", "A"), ("S",), ("S",)])]}, ("direct", "t1"), 30))
@@ -1403,6 +1412,75 @@ STATEFUL_BASE = ("{% for i in (1..3) %}{% block b %}{% cycle 'a','b' %}{% increm
 
 STATEFUL_PAGE = "a0b1a2|31234"
 
+# Recorded raw-source witnesses (features outside the abstract templates). Each: (signature, what it
+# must do, thunk -> observed, expected).  `fixed` signatures are violations when they regress; the one
+# `known` signature prints KNOWN-FINDING while the defect is there.
+PARENTLOOP_BASE = ("{% for row in (1..2) %}{% block cells %}{% for col in (1..2) %}{{ forloop.parentloop.index }}."
+                   "{{ forloop.index }} {% endfor %}{% endblock %}{% endfor %}")
+
+
+def observe_raw() -> dict[str, tuple]:
+    """signature -> (observed, expected, description)."""
+    from collections.abc import Mapping
+
+    from liquid2 import DictLoader, Environment
+
+    class AsyncDrop(Mapping):  # type: ignore[type-arg]
+        def __getitem__(self, k):  # noqa: ANN001, ANN204
+            return "SYNC-" + k
+
+        async def __getitem_async__(self, k):  # noqa: ANN001, ANN204
+            return "ASYNC-" + k
+
+        def __len__(self) -> int:
+            return 1
+
+        def __iter__(self):  # noqa: ANN204
+            return iter(["x"])
+
+    loop = asyncio.new_event_loop()
+    out: dict[str, tuple] = {}
+
+    def both(env, name, **kw):  # noqa: ANN001, ANN003, ANN202
+        res = []
+        for is_async in (False, True):
+            try:
+                t = env.get_template(name)
+                res.append(loop.run_until_complete(t.render_async(**kw)) if is_async else t.render(**kw))
+            except Exception as e:  # noqa: BLE001
+                res.append(type(e).__name__)
+        return tuple(res)
+    try:
+        env = Environment(loader=DictLoader({"base": PARENTLOOP_BASE, "leaf": "{% extends 'base' %}"}))
+        want = ("1.1 1.2 2.1 2.2 ",) * 2
+        out["loop-in-a-block-loses-parentloop-through-a-chain"] = (
+            (both(env, "base"), both(env, "leaf")), (want, want),
+            f"{PARENTLOOP_BASE!r} on its own and through a leaf that overrides nothing")
+        env = Environment(loader=DictLoader({"base": "[{% block a %}{{ d.x }}{% endblock %}]", "plain": "{% extends 'base' %}",
+                                             "leaf": "{% extends 'base' %}{% block a %}{{ block.super }}{% endblock %}"}))
+        d = AsyncDrop()
+        out["block-super-renders-the-parent-synchronously-during-render_async"] = (
+            (both(env, "plain", d=d), both(env, "leaf", d=d)), (("[SYNC-x]", "[ASYNC-x]"),) * 2,
+            "a drop with __getitem_async__ read in a block that is not overridden / reached through block.super (sync, async)")
+        res = []
+        for src in ("{% block a requierd %}{% endblock %}", "{% block a 42 %}{% endblock %}", "{% block a required %}{% endblock %}"):
+            try:
+                Environment().from_string(src)
+                res.append("parsed")
+            except Exception as e:  # noqa: BLE001
+                res.append(type(e).__name__)
+        out["junk-token-after-a-block-name-is-ignored"] = (
+            tuple(res), ("LiquidSyntaxError", "LiquidSyntaxError", "parsed"),
+            "{% block a requierd %}, {% block a 42 %}, {% block a required %} at parse time")
+        env = Environment(loader=DictLoader({"page": "{% block a %}1{% endblock %}{% block a %}2{% endblock %}",
+                                             "wrap": "{% include 'page' %}{% render 'page' %}"}))
+        out["duplicate-block-names-accepted-without-a-chain"] = (
+            (both(env, "page"), both(env, "wrap")), (("TemplateInheritanceError",) * 2,) * 2,
+            "a template that defines block a twice, rendered directly and through include / render (no extends anywhere)")
+    finally:
+        loop.close()
+    return out
+
 
 def observe_stateful() -> tuple | None:
     """(pages of the base on its own, pages through a leaf that extends it), each sync and async."""
@@ -1453,6 +1531,10 @@ def main(chk: C.Check, build: C.Build) -> None:
                         f"base {STATEFUL_BASE!r} must render {STATEFUL_PAGE!r} on its own and through {{% extends %}} from a "
                         f"leaf that overrides nothing (sync, async); it renders {direct} on its own and {through} through the chain",
                         {"base": STATEFUL_BASE, "expected": STATEFUL_PAGE, "direct": direct, "through_extends": through})
+
+    for sig, (got, want_, what) in observe_raw().items():
+        if got != want_:
+            chk.finding(sig, f"{what}: expected {want_}, observed {got}", {"expected": want_, "observed": got})
 
     cases: list[tuple] = (list(CORPUS) + [c + (False,) for c in CORPUS[:12]] + BLANK_CORPUS
                           + [c + (False,) for c in BLANK_CORPUS] + deep_cases() + [W30, WREC])
